@@ -186,6 +186,12 @@ class Slice(object):
                 raise lena.core.LenaValueError(
                     "step must be a natural number (integer >= 1)"
                 )
+            try:
+                # islice is used for the step during run:
+                # it accepts only integers up to sys.maxsize
+                islice((), None, None, step)
+            except ValueError as err:
+                raise lena.core.LenaValueError(err)
             if step != 1:
                 # non-trivial step is computed here.
                 self.run = lambda flow: islice(self._run_negative_islice(flow),
